@@ -85,8 +85,10 @@ type provider struct {
 	// State
 	disposed int32 // atomic
 
-	// closeDone is closed when the Close call that won the disposed flag has finished
+	// closeDone is closed when the Close call that won the disposed flag has finished;
+	// closer is the goroutine that runs that call (atomic)
 	closeDone chan struct{}
+	closer    atomic.Int64
 }
 
 // instanceKey uniquely identifies a service instance
@@ -200,12 +202,15 @@ func (p *provider) CreateScope(ctx context.Context) (Scope, error) {
 func (p *provider) Close() error {
 	if !atomic.CompareAndSwapInt32(&p.disposed, 0, 1) {
 		// Already disposed, or being disposed by another goroutine: wait, so
-		// that a returned Close always means disposed
-		if p.closeDone != nil {
+		// that a returned Close always means disposed. A call made from inside
+		// that very disposal (the Close method of a singleton or of a scoped
+		// instance that shuts the provider down) cannot wait for it
+		if p.closeDone != nil && p.closer.Load() != goroutineID() {
 			<-p.closeDone
 		}
 		return nil
 	}
+	p.closer.Store(goroutineID())
 
 	if p.closeDone != nil {
 		defer close(p.closeDone)
